@@ -94,6 +94,17 @@ let str_rerr = function
 
 let str_kind = function KByte -> "byte" | KString -> "string" | KList -> "list"
 
+(* the extracted list functions are not tail recursive: inputs of a few hundred KB need more
+   than the default 8 MB stack, so the driver re-executes itself once under a larger limit *)
+let () =
+  if Sys.getenv_opt "C16_STACK" = None then begin
+    Unix.putenv "C16_STACK" "1";
+    (try
+       Unix.execv "/bin/sh"
+         [| "/bin/sh"; "-c"; "ulimit -s unlimited 2>/dev/null || ulimit -s 4000000 2>/dev/null || ulimit -s 1000000 2>/dev/null; exec \"$0\""; Sys.executable_name |]
+     with _ -> ())
+  end
+
 let () =
   let cur = ref TBytes in
   let rec loop () =
